@@ -1040,9 +1040,12 @@ def own_compose(ctx: Ctx) -> RuleResult:
     for n in iter_own_nodes(f.node):
         tgt = None
         if isinstance(n, ast.Assign) and isinstance(n.targets[0], ast.Subscript) and isinstance(n.targets[0].value, ast.Attribute):
-            tgt = n.targets[0].value.value
+            tgt = n.targets[0].value.value  # x.f[i] = ..  and the whole-content form  x.f[:] = ..
         elif isinstance(n, ast.Call) and dotted(n.func) == "object.__setattr__":
             tgt = n.args[0]
+        elif isinstance(n, ast.Call) and isinstance(n.func, ast.Attribute) and n.func.attr in ("update", "extend", "append", "insert", "clear", "pop") \
+                and isinstance(n.func.value, ast.Attribute) and n.func.value.attr in ("args", "kwargs"):
+            tgt = n.func.value.value  # x.kwargs.update({..})
         if tgt is not None and isinstance(tgt, ast.Name):
             loops = [l for l in iter_own_nodes(f.node) if isinstance(l, ast.For) and dotted(l.target) == tgt.id and any(n is x for x in ast.walk(l))]
             if loops:
